@@ -12,7 +12,32 @@ trap cleanup EXIT
 cd "$WT"
 git apply "$D/patch.diff" || { echo "{\"dir\":\"$D\",\"applies\":false}"; exit 1; }
 BUILD=ok; go build ./... >/dev/null 2>&1 || BUILD=fail
-SUITE=$(timeout 1700 go test -vet=off -count=1 -timeout 25m ./... 2>&1 | grep -E "^--- FAIL" | grep -v "BroadcastIP" | tr '\n' ' ')
+# the suite uses fixed ports: when other suites run on the machine some tests fail with "address in use".
+# A test counts as a new failure only if it also fails when re-run on its own (up to 3 tries).
+timeout 1700 go test -vet=off -count=1 -timeout 25m -json ./... > "$WT/.suite.json" 2>/dev/null
+SUITE=$(python3 - "$WT/.suite.json" <<'PY'
+import json, subprocess, sys
+fails = []
+for line in open(sys.argv[1]):
+    try:
+        e = json.loads(line)
+    except Exception:
+        continue
+    if e.get("Action") == "fail" and e.get("Test") and "BroadcastIP" not in e["Test"] and "/" not in e["Test"]:
+        fails.append((e["Package"], e["Test"]))
+real = []
+for pkg, t in fails:
+    ok = False
+    for i in range(3):
+        r = subprocess.run(["go", "test", "-vet=off", "-count=1", "-timeout", "300s", "-run", "^" + t + "$", pkg], capture_output=True, text=True)
+        if r.returncode == 0:
+            ok = True
+            break
+    if not ok:
+        real.append(t)
+print(" ".join(real))
+PY
+)
 # place demo files: first comment line containing a path ending in _test.go says where
 place() {
   for f in "$D"/*_test.go; do
